@@ -328,7 +328,8 @@ def impl_qops(case):
     import mido
     from mido.backends._parser_queue import ParserQueue
     q = ParserQueue()
-    out = []
+    ref = mido.Parser()             # the statement: the queue hands out what a parser fed the same bytes hands out, with the put() messages in their places
+    out, got, want = [], [], []
     i = 0
     fail = None
     try:
@@ -336,17 +337,30 @@ def impl_qops(case):
             k = case[i]
             if k == 0:
                 n = case[i + 1]
-                q.put_bytes(case[i + 2:i + 2 + n]); i += 2 + n; out += [0]
+                chunk = case[i + 2:i + 2 + n]
+                q.put_bytes(chunk); i += 2 + n; out += [0]
+                ref.feed(chunk); want += [canon.msg_ints(m) for m in ref]
             elif k == 1:
                 name, kw, rest = canon.kwargs_of(case[i + 1:])
-                q.put(mido.Message(name, **kw)); i = len(case) - len(rest); out += [0]
+                m = mido.Message(name, **kw)
+                q.put(m); i = len(case) - len(rest); out += [0]
+                want.append(canon.msg_ints(m))
             elif k == 2:
                 m = q.poll(); i += 1
                 out += [1, 0] if m is None else [1, 1] + canon.msg_ints(m)
+                if m is not None:
+                    got.append(canon.msg_ints(m))
+                elif len(got) < len(want):
+                    fail = fail or ('pqueue-none', 'ParserQueue history %r: poll() returned None while %d message(s) were due' % (case, len(want) - len(got)))
             elif k == 3:
                 ms = list(q.iterpoll()); i += 1
                 out += [3] + msgs_out(ms)
-        out += [-9] + msgs_out(list(q.iterpoll()))
+                got += [canon.msg_ints(m) for m in ms]
+        rest_ = list(q.iterpoll())
+        out += [-9] + msgs_out(rest_)
+        got += [canon.msg_ints(m) for m in rest_]
+        if fail is None and got != want:
+            fail = ('pqueue-chunking', 'ParserQueue history %r handed out %r; a parser fed the same bytes (with the put() messages in place) gives %r' % (case, got, want))
     except Exception as e:  # noqa: BLE001
         out = [-1, core.exn_code(e)]
         fail = ('pqueue-raises:' + type(e).__name__, 'ParserQueue history %r raised %r' % (case, e))
@@ -362,6 +376,8 @@ def random_qops(rng):
             n = rng.randrange(0, 7)
             chunk = stream[i:i + n]; i += n
             case += [0, len(chunk)] + chunk
+        elif r < 0.56:
+            case += [0, 1, rng.choice([0xf8, 0xf8, 0xfa, 0xfe, 0xff, 0xf9, 0xfd, 0xf6, 0xf7])]     # a lone real-time (or other one-byte) chunk, wherever the stream stands
         elif r < 0.62:
             case += [1] + canon.random_message(rng, sysex_max=5)
         elif r < 0.85:
